@@ -1,7 +1,7 @@
 SPECIFICATION MCSpec
 CONSTANTS Keys = {1, 2, 3, 4}
           Vals = {1, 2}
-          Maxes = {0, 1, 2, 3, 4}
+          Maxes <- MaxesWide
           MaxVal = 3
           IsSet = FALSE
           None <- NoneZero
@@ -9,6 +9,6 @@ CONSTANTS Keys = {1, 2, 3, 4}
           Nones = {0, 3}
           EK = 0
 VIEW View
-INVARIANTS Bounded NoDup DomOK SetOK RefuseOK
-PROPERTIES FirstAtHead LastAtTail PlainAppends PlainKeeps UpdateKeepsKeys OthersKeepOrder EvictOpposite NoOverNeverEvicts SortPermutes RemoveExact PutThenGet LRUMoves NoneIsInert
+INVARIANTS NoDup DomOK SetOK RefuseOK
+PROPERTIES FirstAtHead LastAtTail PlainAppends PlainKeeps UpdateKeepsKeys OthersKeepOrder EvictOpposite NoOverNeverEvicts SortPermutes RemoveExact PutThenGet LRUMoves NoneIsInert LazyBoundP SetMaxInert OnlyNewKeyEvicts NoOverDrops
 CHECK_DEADLOCK FALSE
